@@ -99,6 +99,9 @@ pub trait Backend {
     fn s_update_if(s: &Self::S, t: u8, notify: bool);
     /// (observable_count, subscriber_count, strong_count, weak_count)
     fn s_counts(s: &Self::S) -> (usize, usize, usize, usize);
+    /// the counts while `n` read guards of `s` and one read guard of each of `subs` are alive
+    fn s_counts_guarded(s: &Self::S, n: usize, subs: &[&Self::Sub]) -> (usize, usize, usize, usize);
+    fn u_count_guarded(u: &Self::U, subs: &[&Self::Sub]) -> usize;
     fn s_downgrade(s: &Self::S) -> Self::W;
 
     fn w_upgrade(w: &Self::W) -> Option<Self::S>;
@@ -246,6 +249,15 @@ impl Backend for SyncB {
     }
     fn s_counts(s: &Self::S) -> (usize, usize, usize, usize) {
         (s.observable_count(), s.subscriber_count(), s.strong_count(), s.weak_count())
+    }
+    fn s_counts_guarded(s: &Self::S, n: usize, subs: &[&Self::Sub]) -> (usize, usize, usize, usize) {
+        let _gs: Vec<_> = (0..n).filter_map(|_| s.try_read().ok()).collect();
+        let _sg: Vec<_> = subs.iter().map(|x| x.read()).collect();
+        Self::s_counts(s)
+    }
+    fn u_count_guarded(u: &Self::U, subs: &[&Self::Sub]) -> usize {
+        let _sg: Vec<_> = subs.iter().map(|x| x.read()).collect();
+        Self::u_subscriber_count(u)
     }
     fn s_downgrade(s: &Self::S) -> Self::W {
         s.downgrade()
@@ -427,6 +439,15 @@ impl Backend for AsyncB {
     }
     fn s_counts(s: &Self::S) -> (usize, usize, usize, usize) {
         (s.observable_count(), s.subscriber_count(), s.strong_count(), s.weak_count())
+    }
+    fn s_counts_guarded(s: &Self::S, n: usize, subs: &[&Self::Sub]) -> (usize, usize, usize, usize) {
+        let _gs: Vec<_> = (0..n).filter_map(|_| now(s.read())).collect();
+        let _sg: Vec<_> = subs.iter().filter_map(|x| now(x.read())).collect();
+        Self::s_counts(s)
+    }
+    fn u_count_guarded(u: &Self::U, subs: &[&Self::Sub]) -> usize {
+        let _sg: Vec<_> = subs.iter().filter_map(|x| now(x.read())).collect();
+        Self::u_subscriber_count(u)
     }
     fn s_downgrade(s: &Self::S) -> Self::W {
         s.downgrade()
